@@ -57,7 +57,14 @@ where
         let input = self.as_ref();
         let mut result: Vec<u8> = Vec::with_capacity(input.len() * 3 / 4);
 
-        for group in input.as_bytes().chunks(4) {
+        // Valid base64 consists of complete groups of four symbols
+        if input.len() % 4 != 0 {
+            return Err(());
+        }
+
+        let group_count = input.len() / 4;
+
+        for (group_index, group) in input.as_bytes().chunks(4).enumerate() {
             let mut decoded: u32 = 0;
             let mut broken: usize = 4;
 
@@ -66,9 +73,17 @@ where
                     b'A'..=b'Z' => decoded |= ((tem - b'A') as u32) << (6 * (3 - i)),
                     b'a'..=b'z' => decoded |= ((tem - b'a' + 26) as u32) << (6 * (3 - i)),
                     b'0'..=b'9' => decoded |= ((tem - b'0' + 52) as u32) << (6 * (3 - i)),
-                    b'+' => decoded |= 62_u32 << (6 * i),
-                    b'/' => decoded |= 63_u32 << (6 * i),
+                    b'+' => decoded |= 62_u32 << (6 * (3 - i)),
+                    b'/' => decoded |= 63_u32 << (6 * (3 - i)),
                     b'=' => {
+                        // Padding may only be the last one or two symbols of the input
+                        if group_index + 1 != group_count
+                            || i < 2
+                            || group[i..].iter().any(|&symbol| symbol != b'=')
+                        {
+                            return Err(());
+                        }
+
                         broken = i;
                         break;
                     }
